@@ -95,7 +95,7 @@ class World(object):
     return h
 
   def _run_once(self, recv_ops, writer_plan, policy=None, step_monitor=None, timeout=30.0, drain_rest=True,
-                t0_offset=0.0, receivers=0, pre=None, snap_stores=False, fault_plan=None):
+                t0_offset=0.0, receivers=0, pre=None, snap_stores=False, fault_plan=None, rest_via_hook=False):
     cc, writer, state = self.cc, self.writer, self.state
     import random as _random
     _random.seed(424242)          # RandomStrategy uses the global PRNG: keep runs replayable
@@ -465,7 +465,11 @@ class World(object):
     h.rest = []
     h.rest_exc = None
     if drain_rest and err is None:
-      if self.orig_lag:
+      if self.orig_lag and rest_via_hook:
+        # what the daemon does at shutdown instead of waiting: the 'before shutdown' hook sets the lag to zero
+        writer.shutdownModifyUpdateSpeed()
+        h.rest_via_hook = True
+      elif self.orig_lag:
         self.vt.offset += self.orig_lag + 1000     # only a configured lag may make datapoints wait for the clock
       nones = 0
       for _ in range(10 * (len(h.final) + 2)):
